@@ -545,12 +545,22 @@ fn op_helper(fnname: &str, src_hex: bool, data: &[u8], a: &[Vec<u8>]) -> Out {
         Some(f) => (f, true),
         None => (fnname, false),
     };
+    // "rebuilt." helpers: the retained bytes of the message's OWN protected header are cleared after decoding (the
+    // documented way to make edits take effect), so that header is serialized afresh - while everything nested
+    // inside it (counter-signatures) must still contribute its own retained bytes
+    let (fnname, rebuilt) = match fnname.strip_prefix("rebuilt.") {
+        Some(f) => (f, true),
+        None => (fnname, false),
+    };
     macro_rules! msg {
         ($t:ty) => {
             match get_msg::<$t>(src_hex, data)? {
                 Ok(mut m) => {
                     if edited {
                         m.edit();
+                    }
+                    if rebuilt {
+                        m.protected.original_data = None;
                     }
                     m
                 }
